@@ -142,6 +142,14 @@ Proof.
   repeat split; auto; try (left; assumption); right; rewrite upd2_same; reflexivity.
 Qed.
 
+(* an l-deliver answer on a FIFO channel is only given for a slot below the own delivery counter *)
+Lemma handle_ldeliver_out : forall me st l m st' out r, handle me st l m = (st', out, r) ->
+  forall dst x, In (dst, x) out -> m_act x = 7 -> fifo st = true -> m_s x < dls st (m_j x).
+Proof.
+  intros me st l m st' out r. open_handle; intros dst xm I A7 Ff; in_out I; subst; cbn [m_act] in A7; try discriminate;
+  cbn [m_s m_j]; rewrite Ff in *; cbn in *; b2p; try lia; try discriminate.
+Qed.
+
 (* ---- one call of Deliver / DeliverFrom ---------------------------------------------------------------- *)
 Variable skip : Z.
 Notation deliver := (deliver n t skip H toolong).
@@ -186,9 +194,10 @@ Definition pstep4 (st st' : pst) (out : list (Z * msg)) (r : dres) (offer : opti
   (forall k tg, filt st FEcho k tg = false -> filt st' FEcho k tg = true ->
      exists m, offer = Some (k, m) /\ tg = mtag m /\ m_act m = 2 /\
        (toolong tg (m_pay m) = true \/ ed st' tg (m_pay m) = ed st tg (m_pay m) + 1)) /\
-  (forall tg, In tg (dbuf st) -> In tg (dbuf st') \/ (exists who v, r = RDeliver who tg v) \/ obsolete st tg = true).
+  (forall tg, In tg (dbuf st) -> In tg (dbuf st') \/ (exists who v, r = RDeliver who tg v) \/ obsolete st tg = true) /\
+  (forall dst x, In (dst, x) out -> m_act x = 7 -> skip = 0 -> fifo st = true -> m_s x < dls st (m_j x)).
 
-Ltac split10 := refine (conj _ (conj _ (conj _ (conj _ (conj _ (conj _ (conj _ (conj _ (conj _ _))))))))).
+Ltac split10 := refine (conj _ (conj _ (conj _ (conj _ (conj _ (conj _ (conj _ (conj _ (conj _ (conj _ _)))))))))).
 
 Lemma pstep4_same : forall st st' out off,
   filt st' = filt st -> dbar st' = dbar st -> dbuf st' = dbuf st ->
@@ -199,6 +208,7 @@ Proof.
   - intros dst x I A2. apply A in I. lia.
   - intros dst x I A5. apply A in I. lia.
   - intros dst x I A4. apply A in I. lia.
+  - intros dst x I A7. apply A in I. lia.
 Qed.
 
 Lemma deliver_pstep4 : forall me st offer,
@@ -216,7 +226,7 @@ Proof.
     + unfold pstep4. split10; try (intros; congruence); try (intros ? ? []). auto.
   - destruct (buffer_phase n skip me st) as [st1 sent1] eqn:BP.
     pose proof (buffer_phase_dbuf _ _ _ _ BP) as BD. apply buffer_phase_spec in BP.
-    destruct BP as (F & _ & A6 & _). destruct F as (_ & Mb & Db & Ed & Rd & _ & Fm & Fi).
+    destruct BP as (F & DL0 & A6 & _). destruct F as ((_ & _ & Ff & _) & Mb & Db & Ed & Rd & _ & Fm & Fi).
     unfold all_act6 in A6. rewrite Forall_forall in A6.
     assert (Fk : forall k0 k tg, k0 <> FRetrieve -> filt st k0 k tg = false -> filt st1 k0 k tg = false).
     { intros k0 k tg NK E. destruct (filt st1 k0 k tg) eqn:Y; auto. destruct (Fi _ _ _ Y); congruence. }
@@ -258,6 +268,8 @@ Proof.
         left. destruct (handle_spec n t H toolong _ _ _ _ _ _ _ HH) as [_ RO]. unfold res_ok in RO.
         destruct r; [destruct RO as (_ & [E|E])|destruct RO as (_ & _ & _ & _ & E)|destruct RO as (_ & E)];
         rewrite E; auto. apply in_or_app. auto.
+      * intros dst x I A7 Z0 F1. apply OUT in I; [|lia]. rewrite <- (DL0 Z0).
+        eapply handle_ldeliver_out; eauto; congruence.
     + cbn [o_st o_sent o_res]. unfold pstep4. rewrite Db, Mb. split10; try (intros ? ? F0 F1; apply Fk in F0; [congruence|discriminate]).
       * intros dst x I N6. apply A6 in I. cbn in I. contradiction.
       * intros dst x I A2. apply A6 in I. cbn in I. lia.
@@ -265,6 +277,7 @@ Proof.
       * intros dst x I A4. apply A6 in I. cbn in I. lia.
       * intros; congruence.
       * intros tg I. destruct (BK tg I); auto.
+      * intros dst x I A7. apply A6 in I. cbn in I. lia.
 Qed.
 
 Lemma deliver_from_pstep4 : forall me st i off,
